@@ -82,6 +82,11 @@ func init() {
 func c01RoundTrip(c *fw.Case, t *pdus.Type, force, class int) {
 	v, classes := pdus.Gen(t, c.R, force, class)
 	p := pdus.Build(t, v)
+	if c.R.Bool() {
+		// whatever the header's length word holds before encoding (left over from an earlier use of the object)
+		// is the encoder's to overwrite
+		pdus.SetHeaderLength(t, p, uint32(c.R.Pick(1, 12, 16, 0xffff, int(c.R.U32()>>1))))
+	}
 	b, err, psig, pd := encode(c, p)
 	ctx := func() string { return pdus.Describe(t, v) }
 	if psig != "" {
@@ -199,6 +204,14 @@ func c01Oversize(c *fw.Case, oc oversizeCase) {
 		if psig != "" {
 			c.Failf("oversize-"+psig+"/"+t.Key()+"/"+f.Spec, "%s\n%s", pdus.Describe(t, v), pd)
 			continue
+		}
+		// the error path followed by the success path: a well-formed value of the same type encodes right afterwards
+		if psig == "" && err != nil {
+			gv, _ := pdus.Gen(t, c.R, -1, 0)
+			gb, gerr, gsig, gpd := encode(c, pdus.Build(t, gv))
+			if gsig != "" || gerr != nil || int(be32(gb)) != len(gb) {
+				c.Failf("well-formed-refused-after-refusal/"+t.Key(), "right after a refused encode (oversize %s) a well-formed %s does not encode: err=%v %s %s", f.Spec, t.Key(), gerr, gsig, gpd)
+			}
 		}
 		if err == nil {
 			c.Failf("oversize-accepted/"+t.Key()+"/"+f.Spec, "a %d-octet value in the %d-octet slot %s was encoded without error (%d octets emitted)\n%s\nimage=%s",
